@@ -312,14 +312,17 @@ class C04(fw.Prop):
     run_module = "run.C04Run"
     shard = 60
     rule = ("histories of add_node/add_const/add_link/add_order_link/delete_link/delete_node/insert_hugr run on "
-            "hugr.Hugr through the public API and on the Coq model, every public query observed after every "
+            "hugr.Hugr through the public API and on the Coq model (which takes the returned node index / node mapping "
+            "as the oracle of its free-index choices), every public query observed after every "
             "mutation; non-trivial = the history deletes a link or a node while some port has two or more "
             "links, or reuses a freed index, or inserts a HUGR; distinct = by canonical input")
     trusted = ["operations and metadata are opaque payloads interned by repr()/sorted JSON; node arguments are "
                "Node(idx) handles built by the harness (non-negative indices)"]
     assumptions = ["node arguments of mutators are live nodes, deleted nodes are non-root leaves, port offsets are "
-                   ">= -1 (calls outside this guard end the monitored history; their exception class and the state "
-                   "they leave are still compared with the model)",
+                   ">= -1 (a call outside this guard ends the monitored history and the correspondence: its exception "
+                   "class and effect are unspecified by the property)",
+                   "which free index a new node receives is not prescribed: the implementation's choice is followed by "
+                   "the model when it is a free index (any reuse policy), and must otherwise be the next fresh index",
                    "_update_port_count and direct field writes are not part of the histories (private API)"]
 
     # ---- cases
@@ -464,10 +467,26 @@ class C04(fw.Prop):
                 break
 
     def distribution(self, cases, observations):
-        d = {"histories": len(cases), "ops": {}, "exceptions": {}, "max_len": 0, "max_fanout": 0, "max_nodes": 0}
+        d = {"histories": len(cases), "ops": {}, "exceptions": {}, "max_len": 0, "max_fanout": 0, "max_nodes": 0,
+             # diagnostic only ("model drift"), never a verdict: how often the implementation reused a freed index
+             # other than the most recently freed one (the code as modelled without an oracle pops that one)
+             "index_reuses": 0, "index_reuses_not_most_recently_freed": 0}
         for c, o in zip(cases, observations):
             d["max_len"] = max(d["max_len"], len(o["steps"]))
+            freed = []
             for op, st in zip(c["ops"], o["steps"]):
+                if st["res"] == "Ok":
+                    if op[0] == "DelNode":
+                        freed.append(op[1])
+                    elif st["ret"][0] == "RNode" and st["ret"][1] in freed:
+                        d["index_reuses"] += 1
+                        d["index_reuses_not_most_recently_freed"] += st["ret"][1] != freed[-1]
+                        freed.remove(st["ret"][1])
+                    elif st["ret"][0] == "RMap":
+                        for _, v in st["ret"][1]:
+                            if v in freed:
+                                d["index_reuses"] += 1
+                                freed.remove(v)
                 d["ops"][op[0]] = d["ops"].get(op[0], 0) + 1
                 if st["res"] != "Ok":
                     d["exceptions"][st["res"]] = d["exceptions"].get(st["res"], 0) + 1
